@@ -44,8 +44,19 @@ func DialWebsocket(ctx context.Context, urlStr string, requestHeader http.Header
 
 type websocketTransport struct {
 	conn *websocket.Conn
+	mu   sync.RWMutex // guards conn: Close runs while other goroutines send and receive
 	c    SessionCompression
 	e    SessionEncryption
+}
+
+// openConn returns the connection, or an error if the transport was closed.
+func (t *websocketTransport) openConn() (*websocket.Conn, error) {
+	t.mu.RLock()
+	defer t.mu.RUnlock()
+	if t.conn == nil {
+		return nil, errors.New("transport is not open")
+	}
+	return t.conn, nil
 }
 
 func (t *websocketTransport) Send(ctx context.Context, e envelope) error {
@@ -57,20 +68,21 @@ func (t *websocketTransport) Send(ctx context.Context, e envelope) error {
 		panic("nil envelope")
 	}
 
-	if err := t.ensureOpen(); err != nil {
+	conn, err := t.openConn()
+	if err != nil {
 		return err
 	}
 
 	errChan := make(chan error)
 	go func() {
-		errChan <- t.conn.WriteJSON(e)
+		errChan <- conn.WriteJSON(e)
 	}()
 
 	select {
 	case <-ctx.Done():
 		// Effectively fails all pending write operations before returning.
 		// Note that this makes the encoder to be in a permanent error state.
-		_ = t.conn.SetWriteDeadline(time.Now())
+		_ = conn.SetWriteDeadline(time.Now())
 		<-errChan
 		return fmt.Errorf("ws transport: send: %w", ctx.Err())
 	case err := <-errChan:
@@ -86,7 +98,8 @@ func (t *websocketTransport) Receive(ctx context.Context) (envelope, error) {
 		panic("nil context")
 	}
 
-	if err := t.ensureOpen(); err != nil {
+	conn, err := t.openConn()
+	if err != nil {
 		return nil, err
 	}
 
@@ -94,7 +107,7 @@ func (t *websocketTransport) Receive(ctx context.Context) (envelope, error) {
 	errChan := make(chan error)
 	go func() {
 		var raw rawEnvelope
-		if err := t.conn.ReadJSON(&raw); err != nil {
+		if err := conn.ReadJSON(&raw); err != nil {
 			errChan <- err
 		} else {
 			rawChan <- raw
@@ -105,7 +118,7 @@ func (t *websocketTransport) Receive(ctx context.Context) (envelope, error) {
 	case <-ctx.Done():
 		// Effectively fails all pending read operations before returning.
 		// Note that this makes the decoder to be in a permanent error state.
-		_ = t.conn.SetReadDeadline(time.Now())
+		_ = conn.SetReadDeadline(time.Now())
 		// wait for the error of the envelope result (which will be discarded)
 		select {
 		case <-errChan:
@@ -120,13 +133,15 @@ func (t *websocketTransport) Receive(ctx context.Context) (envelope, error) {
 }
 
 func (t *websocketTransport) Close() error {
-	if err := t.ensureOpen(); err != nil {
-		return err
-	}
-
-	err := t.conn.Close()
+	t.mu.Lock()
+	conn := t.conn
 	t.conn = nil
-	return err
+	t.mu.Unlock()
+
+	if conn == nil {
+		return errors.New("transport is not open")
+	}
+	return conn.Close()
 }
 
 func (t *websocketTransport) SupportedCompression() []SessionCompression {
@@ -160,23 +175,24 @@ func (t *websocketTransport) SetEncryption(_ context.Context, e SessionEncryptio
 }
 
 func (t *websocketTransport) Connected() bool {
-	return t.conn != nil
+	_, err := t.openConn()
+	return err == nil
 }
 
 func (t *websocketTransport) LocalAddr() net.Addr {
-	return t.conn.LocalAddr()
+	conn, err := t.openConn()
+	if err != nil {
+		return nil
+	}
+	return conn.LocalAddr()
 }
 
 func (t *websocketTransport) RemoteAddr() net.Addr {
-	return t.conn.RemoteAddr()
-}
-
-func (t *websocketTransport) ensureOpen() error {
-	if t.conn == nil {
-		return errors.New("transport is not open")
+	conn, err := t.openConn()
+	if err != nil {
+		return nil
 	}
-
-	return nil
+	return conn.RemoteAddr()
 }
 
 type WebsocketConfig struct {
